@@ -27,7 +27,9 @@ fn gen_case(seed: u64, i: u64) -> Case {
     tags.push(format!("ud:{}", ud.kind()));
     let nloc = f.locations().len();
     let descr = describe(f);
-    Case { coq, nontrivial: nloc >= 4 && (fc.tags.contains("multi-read") || fc.tags.contains("loop") || fc.tags.contains("guarded-edge") || fc.tags.contains("reads-own-dst")), key: descr.clone(), descr, tags }
+    let nelems = instr_count(f);
+    let descr = format!("{}{}", keep_prefix("instructions", nelems), descr);
+    Case { coq, nontrivial: nloc >= 4 && (fc.tags.contains("multi-read") || fc.tags.contains("loop") || fc.tags.contains("guarded-edge") || fc.tags.contains("reads-own-dst")), key: descr.clone(), descr, tags }.with_elements(nelems)
 }
 
 fn main() {
